@@ -312,6 +312,31 @@ def run(ctx, R, tier):
             R.check(ok, "C03-R4", key, "reply site is reachable only on the not-oneway edge", h.loc(c),
                     "the server can send a reply for a oneway request; the client never reads it, so the NEXT call on that connection receives it")
 
+    # one request, at most one reply: after a reply went out no second reply site is reachable by normal control flow
+    rnodes = [n for c in reply_sites for n in ctx.node_of(h, c)]
+    noexc = lambda e: e.kind != "exc"
+    twice = None
+    for c in reply_sites:
+        if hcfg.path_exists(ctx.node_of(h, c), lambda n: n in rnodes, edge_ok=noexc):
+            twice = c
+    R.check(twice is None, "C03-R4", "handleRequest|one-reply-per-request", "no reply site is followed (by normal control flow) by another one", h.loc(twice) if twice is not None else h.loc(),
+            "after `%s` another reply can be sent for the same request (a missing return): the client reads the surplus message as the answer to its NEXT call" % (
+                unparse(twice, 60) if twice is not None else ""))
+    # a failed receive ends the request (and with it the connection): nothing is dispatched or answered for a message that was not read
+    rc = ctx.calls_to(h, "Pyro5.protocol.recv_stub")
+    ok = len(rc) == 1
+    why = "recv_stub call vanished"
+    if ok:
+        rn = ctx.node_of(h, rc[0])
+        others = [n for n in hcfg.nodes if n.kind == "stmt" and n not in rn and any(True for _ in calls_in(n))]
+        # along exception edges out of the receive, no call statement may be reached without passing a re-raise
+        reach = hcfg.path_exists(rn, lambda n: n in others and not any(isinstance(x, ast.Raise) for x in [n.ast]),
+                                 edge_ok=lambda e, rn=rn: (e.src in rn and e.kind == "exc") or (e.src not in rn and e.kind != "exc"),
+                                 node_blocked=lambda n: n.kind == "stmt" and isinstance(n.ast, ast.Raise))
+        ok = not reach
+        why = "when receiving the request fails, handleRequest goes on (dispatching / answering) instead of leaving: a timed-out idle connection gets an unsolicited error reply"
+    R.check(ok, "C03-R4", "handleRequest|receive-failure-leaves", "an exception of recv_stub leaves handleRequest (it is re-raised, nothing else runs)", h.loc(rc[0]) if rc else h.loc(), why)
+
     # ---------------------------------------------------------------- R5
     srv = p.module("Pyro5.server")
     n_sm = 0
